@@ -212,16 +212,23 @@ func fuzzSumMain(args []string) int {
 		switch {
 		case len(vkeys) > 0:
 		case failed:
-			// the engine stopped without a judged violation: a worker died
-			// (process-fatal error inside the library) or the harness broke
-			if strings.Contains(txt, "fuzzing process hung or terminated unexpectedly") || strings.Contains(txt, "fatal error:") {
+			// the engine stopped without a judged violation: a worker died (a
+			// process-fatal error inside the library, or the engine's own 10 s
+			// per-input limit on a loaded machine) or the harness broke. check
+			// has run the input once more, alone: only that run counts.
+			alone, aerr := os.ReadFile(filepath.Join(work, name+".alone.log"))
+			switch {
+			case aerr == nil && strings.Contains(string(alone), "alone-exit=0"):
+				t["worker_death_not_reproduced_alone"] = true
+				t["note"] = "a worker died during the stage; its last input passes when run alone (the engine allows a worker 10 s per input), the stage ended early and what it had judged until then stands"
+			case aerr == nil:
 				dst := filepath.Join(rdir, "fuzz-worker-death-"+name+".json")
 				os.MkdirAll(rdir, 0o755)
-				rp, _ := json.Marshal(map[string]any{"property": prop, "kind": "_none", "key": "fuzz-worker-death:" + name, "detail": tail(txt, 3000)})
+				rp, _ := json.Marshal(map[string]any{"property": prop, "kind": "_none", "key": "fuzz-worker-death:" + name, "detail": tail(string(alone), 4000)})
 				os.WriteFile(dst, rp, 0o644)
-				fmt.Printf("VIOLATION property=%s replay=%s key=fuzz-worker-death:%s :: a fuzz worker process died while the library handled an input (see the go test output stored in the replay record; the input is under testdata/fuzz of the work directory)\n", prop, dst, name)
+				fmt.Printf("VIOLATION property=%s replay=%s key=fuzz-worker-death:%s :: the process died (or did not return) while the library handled an input, also when the input was run alone; the go test output is in the replay record, the input under .work/.../fuzz/crashers\n", prop, dst, name)
 				rc = 1
-			} else {
+			default:
 				fmt.Printf("INCONCLUSIVE property=%s reason=coverage-guided stage %s failed without a judged violation: %s\n", prop, name, strings.ReplaceAll(tail(txt, 300), "\n", " | "))
 				if rc == 0 {
 					rc = 2
